@@ -21,7 +21,8 @@ RULE = ("(a) Optimiser level: Hypothesis draws (N,W) with NW<=24, a PSD covarian
         "the Theta just produced; the stored MRF must equal Theta bit for bit where |Theta|>=eps and be 0 elsewhere. (c) End "
         "to end: runs with sensor scales 10^-6..10^6, clusters smaller than NW, duplicated rows and constant sensors; every MRF "
         "finite/symmetric/PD, every float field of the result and every emitted cost table finite. Non-trivial = condition "
-        "number of S > 1e6 or rank(S) < NW or the floor removed at least one entry; distinct by SHA-1 of the case.")
+        "number of S > 1e6 or rank(S) < NW or the floor removed at least one entry; distinct by SHA-1 of the case."
+        " End to end with a requested floor (1e-4..0.2, both front ends, sometimes after the same run with another floor): every MRF stored by an optimise phase is the floor-filtered image of a matrix the optimiser returned in that round, judged by the caller's floor.")
 ASSUMPTIONS = ["a run that raises does not complete and is outside clause (c) (counted as discarded)",
                "optimiser-level inputs are symmetric PSD matrices built as sample covariances of finite data"]
 
@@ -243,6 +244,59 @@ def execute_e2e(case, t):
         t.mark_nontrivial(dict(ce.brief_result(tr), sensor_scales=sc))
 
 
+def _floor_e2e_strategy():
+    return gen.e2e_config(front=("single", "joint"), max_N=3, max_W=3, max_K=3, betas=(0.0, 2.0, 20.0), limits=(1, 2, 3),
+                          t_range=(30, 90), eps_values=(1e-4, 1e-3, 1e-2, 0.05, 0.2), lam_forms=("scalar", "const_matrix"))
+
+
+def execute_floor_e2e(case, t):
+    """The floor the CALLER requested (not whatever the run's own argument record says) against what the optimiser produced in
+    each round: every MRF stored after an optimise phase is the floor-filtered image of a matrix the optimiser returned in that
+    round, and the returned MRFs are those of the last round."""
+    from fast_ticc import matrix_compression
+    eps = float(case["eps"])
+    tr = ce.traced_run(case, t, sync_pool=True, record_admm=True)
+    removed = 0
+    for r, q in enumerate(tr.rounds):
+        produced = [matrix_compression.reinflate_matrix(np.array(c["theta"], copy=True)) for c in q["admm"] if "theta" in c]
+        stored = [c["train_inverse"] for c in q["phases"]["optimize"]["after"]["clusters"]]
+        before = [c["train_inverse"] for c in q["phases"]["optimize"]["before"]["clusters"]]
+        for k, st_ in enumerate(stored):
+            if st_ is None:
+                continue
+            st_ = np.asarray(st_)
+            inside = (np.abs(st_) > 0) & (np.abs(st_) < eps)
+            if np.any(inside):
+                i, j = np.argwhere(inside)[0]
+                raise Violation(f"round {r}, cluster {k}: floor eps={eps!r} was requested but the stored MRF has entry ({i},{j}) = {st_[i, j]!r}, "
+                                f"of magnitude strictly between 0 and eps ({int(inside.sum())} such entries)")
+            if before[k] is not None and np.array_equal(np.asarray(before[k]), st_):
+                continue                      # not refitted in this round (e.g. an empty cluster keeps its matrix)
+            ok = False
+            for th in produced:
+                if th.shape != st_.shape:
+                    continue
+                keep = np.abs(th) >= eps
+                if np.array_equal(np.where(keep, th, 0.0), st_):
+                    ok = True
+                    removed += int(np.sum(~keep))
+                    break
+            if not ok:
+                raise Violation(f"round {r}, cluster {k}: the stored MRF is not the floor-filtered (eps={eps!r}) image of any matrix the "
+                                "optimiser produced in this round (an entry of magnitude >= eps differs from the optimiser's, or "
+                                "entries were removed that should have stayed)")
+    last = tr.rounds[tr.end["rounds"] - 1]["phases"]["optimize"]["after"]["clusters"]
+    for k, m in enumerate(tr.result.markov_random_fields):
+        if last[k]["train_inverse"] is not None and not np.array_equal(np.asarray(m), np.asarray(last[k]["train_inverse"])):
+            raise Violation(f"returned MRF {k} is not the matrix stored by the last round's optimise phase")
+    ce.classify(tr, t)
+    t.cls(f"eps={eps:g}")
+    if case.get("prior_run_override") and "eps" in case["prior_run_override"]:
+        t.cls("after_a_run_with_another_floor")
+    if removed:
+        t.mark_nontrivial(dict(ce.brief_result(tr), eps=eps, removed_entries=removed))
+
+
 def _pinned_opt():
     return [{"N": 2, "W": 1, "seed": 1, "samples": 30, "log_std": [0.7, 5.7], "duplicate": False, "constant": [], "lam": 0.11, "biased": False},
             {"N": 3, "W": 2, "seed": 2, "samples": 1, "log_std": [6.0, -6.0, 0.0], "duplicate": False, "constant": [], "lam": 0.0, "biased": True},
@@ -268,6 +322,8 @@ SUBCHECKS = [
              min_nontrivial_fraction=0.3),
     SubCheck(name="covariance_floor_semantics", strategy=floor_case, execute=execute_floor,
              budget={"quick": 96, "thorough": 3000}, shards={"quick": 8, "thorough": 8}, modes=["jit"]),
+    SubCheck(name="end_to_end_requested_floor", strategy=_floor_e2e_strategy, execute=execute_floor_e2e,
+             budget={"quick": 96, "thorough": 2400}, shards={"quick": 16, "thorough": 8}, modes=E2E_MODES),
     SubCheck(name="end_to_end_wide_windows_large_scales", strategy=_wide_strategy, execute=execute_e2e, pinned=_pinned_wide,
              budget={"quick": 32, "thorough": 800}, shards={"quick": 16, "thorough": 16}, modes={"quick": ["nojit"], "thorough": ["nojit"]}),
     SubCheck(name="end_to_end_scales_and_degenerate_data", strategy=_e2e_strategy, execute=execute_e2e,
